@@ -683,7 +683,9 @@ class Analysis:
                     # an opaque Copy value (cipher kind, mode ...): remember where it was read from, so that pure functions of it agree
                     root = st.fact.get((sp_[0], ()))
                     base = root[1] if root and root[0] == "id" else f"{fn}:_{sp_[0]}"
-                    st.fact[dkey] = ("id", base + _place_repr(sp_)[len(f"_{sp_[0]}"):])
+                    o_id = self.obj_at(st, body, sp_, create=False)
+                    # (the object id names the same value in every helper that receives it; the spelling of the place does not)
+                    st.fact[dkey] = ("id", "@" + o_id) if o_id is not None else ("id", base + _place_repr(sp_)[len(f"_{sp_[0]}"):])
             else:
                 v = self.eval_op(st, body, op)
                 if v is not None:
@@ -1416,7 +1418,7 @@ class Analysis:
                 set_int(Lin(kconst))
                 return
             callee = self.prog.body(tgt)
-            if callee is not None and callee.kind in ("Fn", "AssocFn") and depth < self.max_depth and tgt not in ctx and not self.prog.is_test_body(callee) and not callee.j.get("asyncness"):
+            if callee is not None and callee.kind in ("Fn", "AssocFn") and (depth < self.max_depth or self._is_leaf(callee)) and tgt not in ctx and not self.prog.is_test_body(callee) and not callee.j.get("asyncness"):
                 self.inline(body, blk, t, c, callee, st, ctx, depth)
                 return
         self.unknown_call(body, blk, t, c, st, ctx)
@@ -1548,6 +1550,11 @@ class Analysis:
         sym = Lin.sym(name)
         st.int[dk] = sym
         st.add_con(Lin(1).sub(sym))
+
+    @staticmethod
+    def _is_leaf(callee):
+        """a tiny function that calls nothing (`fn size_bytes() -> usize { 2 }`): evaluating it costs nothing, even at the inlining bound"""
+        return len(callee.blocks) <= 4 and not any(True for _ in callee.calls())
 
     def canon_rep(self, st, body, place):
         """identity of the value a discriminant is read from. Below a tracked object (an argument, something reached through one, or a
